@@ -58,7 +58,7 @@ def run(tier, seed, replay):
             cases = [{"id": 0, "src": rec["case"]["src"], "inputs": [rec["case"]["input"]], "masks": [ALL_OFF, 0, rec["case"].get("mask", 0)]}]
         else:
             cases = []
-            for i in range(900 if quick else 12000):
+            for i in range(900 if quick else 24000):
                 if i % 5 == 4:
                     cases.append({"id": i, "src": jqgen.join_program(r), "inputs": r.sample(uni, 3 if quick else 5), "masks": [ALL_OFF, 0] + [1 << b for b in range(NOPT)]})
                     continue
